@@ -130,6 +130,8 @@ def items_of(t):
 def as_tensor(ex, path, x):
     if isinstance(x, T):
         return x
+    if hasattr(x, "as_tensor"):
+        return x.as_tensor()
     if is_scalar(x):
         return T((), lambda: x, kind="bool" if boollike(x) else ("int" if intlike(x) else "real"))
     if isinstance(x, (list, tuple)):
@@ -163,6 +165,8 @@ def from_list(ex, path, lst):
 
 @prim("len")
 def p_len(ex, path, x):
+    if hasattr(x, "sym_len"):
+        return x.sym_len
     if isinstance(x, T):
         if x.ndim == 0:
             raise Unsupported("len() of 0-d array")
